@@ -604,3 +604,68 @@ def l6(facts, tier):
     if n == 0:
         yield ob(["C16"], "L6", "no-split-key", "pass", "", "no function matches a parameter against an atomic static and then takes data from another "
                  "lock-protected static", nontrivial=False)
+
+
+# ---------------------------------------------------------------------------------------------
+# L7: cells that are read together are written together
+
+_CELL_WRITE = ("store", "set", "swap", "fetch_add", "fetch_sub", "fetch_or", "fetch_and", "compare_exchange", "get_or_init", "replace", "take")
+_CELL_READ = ("load", "get", "get_or_init")
+
+
+@rule("L7", ["C16"], floor=0, doc="cells that are read together are written together: when a function of savefile_abi writes two different interior-mutable "
+      "fields of one shared object with two separate operations (an atomic store and a OnceLock::set, two atomics ...) and a function "
+      "decides on one of these fields and then uses the other, no lock makes the pair change as one: two threads interleave the four "
+      "operations and leave a pair that belongs to neither (a cached template next to another caller's entry point)")
+def l7(facts, tier):
+    n = 0
+
+    def cell_ops(f, names):
+        """(object variable, field, operation name, node) for calls `obj.field.op(..)` on a shared reference parameter / static"""
+        out = []
+        for x in walk(f["body"]):
+            if x.get("k") != "Call" or not x.get("args"):
+                continue
+            op = (callee(x) or "").rsplit("::", 1)[-1]
+            if op not in names:
+                continue
+            r = peel(x["args"][0])
+            while r.get("k") in ("Ref", "Deref", "Coerce"):
+                r = peel(r["e"])
+            if r.get("k") == "Field":
+                b = peel(r["e"])
+                while b.get("k") in ("Ref", "Deref", "Coerce"):
+                    b = peel(b["e"])
+                if b.get("k") in ("Var", "Static"):
+                    out.append((b.get("v") or b.get("id"), r["f"], op, x))
+        return out
+
+    fns = [f for f in facts.fns.values() if f["crate"] == "savefile_abi" and f.get("body") and f.get("kind") != "Closure"]
+    for f in sorted(fns, key=lambda g: g["id"]):
+        shared = {p["pat"]["v"] for p in f.get("params", []) if (p.get("pat") or {}).get("k") == "Bind" and (p.get("ty") or "").startswith("&")
+                  and not (p.get("ty") or "").startswith("&mut")}
+        ws = [w for w in cell_ops(f, _CELL_WRITE) if (w[0] in shared or str(w[0]).startswith("savefile_abi::")) and w[2] not in ("get",)]
+        by_obj = {}
+        for o, fld, op, x in ws:
+            by_obj.setdefault(o, {}).setdefault(fld, []).append((op, x))
+        for o, flds in by_obj.items():
+            if len(flds) < 2:
+                continue
+            # are two of these fields read together somewhere (here or in another function of the crate)?
+            together = False
+            for g in fns:
+                rd = {fld for o2, fld, op, x in cell_ops(g, _CELL_READ) if fld in flds}
+                if len(rd) >= 2:
+                    together = True
+            if not together:
+                continue
+            n += 1
+            names = sorted(flds)
+            node = flds[names[1]][0][1]
+            yield ob(["C16"], "L7", f"{f['id']}:{'+'.join(names)}", "violation", where(f, node),
+                     f"{f['id']} writes the fields {names} of one shared object with separate operations ({', '.join(flds[k][0][0] for k in names)}) and they are "
+                     f"read together to take a decision: two threads that arrive with different keys interleave the writes and leave a value next "
+                     f"to the other thread's key, which every later call then trusts")
+    if n == 0:
+        yield ob(["C16"], "L7", "no-split-pair", "pass", "", "no function writes two interior-mutable fields of one shared object that are read together",
+                 nontrivial=False)
